@@ -168,6 +168,9 @@ pub fn drive(args: &Args) -> i32 {
                     let (t, f) = sheets[rng.gen_range(0..sheets.len())];
                     s.push_str(t); ideal.push_str(t);
                     if !f.is_empty() { feats.push(f); }
+                    // the sheet prefix is an atom of its own: a scanner that repairs one of SheetCellLike /
+                    // MixedRef and not the other reads the prefix one way and the reference the other way
+                    atoms.push((s[s0..].to_string(), ideal[i0..].to_string()));
                 }
                 let (cabs, rabs) = (rng.gen_bool(0.3), rng.gen_bool(0.3));
                 let col = [0u32, 1, 25, 26, 27, 701, 702, 16370][rng.gen_range(0..8)] + rng.gen_range(0..3);
@@ -183,6 +186,8 @@ pub fn drive(args: &Args) -> i32 {
                 if !f.is_empty() { feats.push(f); }
                 last_alnum = t.chars().last().map_or(false, |c| c.is_alphanumeric());
             }
+            // (the atoms cover the text so far: the new one starts where they end)
+            let (s0, i0) = (s0.max(atoms.iter().map(|a| a.0.len()).sum::<usize>()), i0.max(atoms.iter().map(|a| a.1.len()).sum::<usize>()));
             atoms.push((s[s0..].to_string(), ideal[i0..].to_string()));
         }
         feats.sort();
